@@ -264,6 +264,54 @@ fn racy_module_world(rng: &mut Rng) -> GWorld {
   }
 }
 
+/// Hand-shaped registry world whose outcome is order-sensitive downstream of
+/// the version manifests: two packages entered in one pass whose entry
+/// modules ask for overlapping requirements of a third package (version
+/// unification is first-come), and a shared failing import (first referrer).
+fn racy_registry_world(rng: &mut Rng) -> RegWorld {
+  let ver = |v: &str, imports: Vec<Imp>| RVer {
+    version: v.to_string(),
+    yanked: false,
+    date: 0,
+    exports: Exports::Map(vec![(".".into(), "./mod.ts".into())]),
+    files: vec![RFile { path: "/mod.ts".into(), imports }],
+    module_graph2: None,
+    module_graph1: None,
+  };
+  let loose = *rng.pick(&["^1.0.0", "*", "1", "^1"]);
+  let tight = *rng.pick(&["1.0.0", "~1.0.0", "=1.0.0"]);
+  let shared_missing = "https://h.test/missing.ts";
+  let mut a_imports = vec![Imp::Static(format!("jsr:@s/c@{}", loose))];
+  let mut b_imports = vec![Imp::Static(format!("jsr:@s/c@{}", tight))];
+  if rng.coin() {
+    a_imports.push(Imp::Static(shared_missing.into()));
+    b_imports.push(Imp::Static(shared_missing.into()));
+  }
+  if rng.coin() {
+    std::mem::swap(&mut a_imports, &mut b_imports);
+  }
+  let pkgs = vec![
+    RPkg { name: "@s/a".into(), versions: vec![ver("1.0.0", a_imports)] },
+    RPkg { name: "@s/b".into(), versions: vec![ver("1.0.0", b_imports)] },
+    RPkg { name: "@s/ab".into(), versions: vec![ver("1.0.0", vec![Imp::Static(format!("jsr:@s/c@{}", loose))])] },
+    RPkg { name: "@s/c".into(), versions: vec![ver("1.0.0", vec![]), ver("1.1.0", vec![]), ver("1.2.0", vec![])] },
+  ];
+  let mut main: Vec<Imp> = vec![Imp::Static("jsr:@s/a@1".into()), Imp::Static("jsr:@s/b@1".into())];
+  if rng.coin() {
+    main.push(Imp::Static("jsr:@s/ab@1".into()));
+  }
+  if rng.chance(1, 3) {
+    main.push(Imp::Dynamic("jsr:@s/c@1.1.0".into()));
+  }
+  rng.shuffle(&mut main);
+  RegWorld {
+    pkgs,
+    app: vec![("file:///main.ts".to_string(), main)],
+    roots: vec!["file:///main.ts".to_string()],
+    ..Default::default()
+  }
+}
+
 fn case(i: usize, seed: u64, tier: Tier, acc: &mut Acc) {
   let mut rng = Rng::new(seed).fork(i as u64 ^ 0xC04);
   let w: W4 = match i % 4 {
@@ -289,6 +337,7 @@ fn case(i: usize, seed: u64, tier: Tier, acc: &mut Acc) {
       };
       W4::G(gw, cfg)
     }
+    2 if i % 8 == 2 => W4::R(racy_registry_world(&mut rng)),
     _ => {
       let mut rw = gen_reg_world(&mut rng);
       if i % 4 == 3 {
